@@ -4,34 +4,129 @@ import (
 	verif "MODULE/zzverif"
 )
 
-// C04: hostile ROR2 input into every reader entry point: no panic escapes.
+// C04: hostile input into every reader entry point: no panic escapes, no
+// unbounded loop (instruction budget), every call returns a value or an error.
 
-func c04Reader(n int) (Reader, bool) {
+const c04Shapes = 17
+
+// c04Read drives reader r through one of a fixed set of typed read shapes.
+func c04Read(r Reader, shape int) error {
+	switch shape {
+	case 0:
+		_, err := r.ReadString()
+		return err
+	case 1:
+		_, err := r.ReadInt32()
+		return err
+	case 2:
+		_, err := r.ReadInt64()
+		return err
+	case 3:
+		_, err := r.ReadFloat64()
+		return err
+	case 4:
+		_, err := r.ReadBool()
+		return err
+	case 5:
+		_, err := r.ReadBytes()
+		return err
+	case 6:
+		_, err := r.ReadInterface()
+		return err
+	case 7:
+		return r.Skip()
+	case 8:
+		_, err := r.ReadRawBytes()
+		return err
+	case 9:
+		return r.ReadMap(func(r Reader, k string) error { _, e := r.ReadString(); return e })
+	case 10:
+		return r.ReadArray(func(r Reader) error { _, e := r.ReadInt32(); return e })
+	case 11:
+		return r.ReadMap(func(r Reader, k string) error {
+			return r.ReadArray(func(r Reader) error { _, e := r.ReadString(); return e })
+		})
+	case 12:
+		return r.ReadArray(func(r Reader) error {
+			return r.ReadMap(func(r Reader, k string) error { _, e := r.ReadInt64(); return e })
+		})
+	case 13:
+		return c04ReadRecord(r)
+	case 14:
+		return r.ReadMap(func(r Reader, k string) error { return r.Skip() })
+	case 15:
+		_, err := r.ReadFloat32()
+		return err
+	case 16:
+		_, err := r.ReadInt()
+		return err
+	}
+	return nil
+}
+
+func c04Try(r Reader, shape int, what string) {
+	p, msg := verif.Try(func() { _ = c04Read(r, shape) })
+	verif.Assert(!p, what+" panicked: "+msg)
+	verif.Cover("read-returned")
+}
+
+// Harness_C04_Ror2: all byte strings of length n into NewRor2Reader + shape.
+func Harness_C04_Ror2(shape, n int) {
 	data := verif.String(n)
 	r, err := NewRor2Reader(data)
 	if err != nil {
-		return nil, false
+		return
 	}
 	verif.Cover("reader-built")
-	return r, true
+	c04Try(r, shape, "ROR2 read")
 }
 
-func Harness_C04_Ror2_ReadInterface(n int) {
-	r, ok := c04Reader(n)
-	if !ok {
+// Harness_C04_Ror2Ascii: same with every byte < 0x80 (the validation loop
+// ranges by rune, so non-ASCII multiplies paths; both sub-bounds are run).
+func Harness_C04_Ror2Ascii(shape, n int) {
+	b := verif.Bytes(n)
+	for _, c := range b {
+		verif.Assume(c < 0x80)
+	}
+	r, err := NewRor2Reader(string(b))
+	if err != nil {
 		return
 	}
-	p, msg := verif.Try(func() { _, _ = r.ReadInterface() })
-	verif.Assert(!p, "ReadInterface panicked: "+msg)
+	verif.Cover("reader-built")
+	c04Try(r, shape, "ROR2 read")
 }
 
-func Harness_C04_Ror2_ReadMap(n int) {
-	r, ok := c04Reader(n)
-	if !ok {
+// Harness_C04_Query: all byte strings of length n into ParseQueryParams, then
+// every resulting parameter reader through the shape.
+func Harness_C04_Query(shape, n int) {
+	q := verif.String(n)
+	var params QueryParamsReader
+	p, msg := verif.Try(func() { params, _ = ParseQueryParams(q) })
+	verif.Assert(!p, "ParseQueryParams panicked: "+msg)
+	for _, r := range params {
+		verif.Cover("param-reader")
+		c04Try(r, shape, "query param read")
+	}
+}
+
+// Harness_C04_Json: all byte strings of length n into NewJsonReader + shape.
+func Harness_C04_Json(shape, n int) {
+	data := verif.Bytes(n)
+	r, err := NewJsonReader(data)
+	if err != nil {
 		return
 	}
-	p, msg := verif.Try(func() {
-		_ = r.ReadMap(func(r Reader, k string) error { _, e := r.ReadString(); return e })
-	})
-	verif.Assert(!p, "ReadMap panicked: "+msg)
+	verif.Cover("reader-built")
+	c04Try(r, shape, "JSON read")
+}
+
+// Reachability twin: the assertion machinery must be able to fail.
+func Harness_C04_Twin(n int) {
+	data := verif.String(n)
+	r, err := NewRor2Reader(data)
+	if err != nil {
+		return
+	}
+	_, err = r.ReadInt32()
+	verif.Assert(err != nil, "twin: some input parses as int32")
 }
